@@ -57,6 +57,7 @@ def main(argv):
     ap.add_argument('--runs', type=int)
     ap.add_argument('--workers', type=int, default=int(os.environ.get('DFSIM_WORKERS', '16')))
     ap.add_argument('--no-evidence', action='store_true')
+    ap.add_argument('--no-shrink', action='store_true', help='report violations without minimising them (self-tests)')
     ap.add_argument('--digests', action='store_true', help='print one DIGEST line per run (determinism self-test)')
     ap.add_argument('--only', help='selftests: restrict to one property / mutant')
     ap.add_argument('--dump', type=int, help='run only index i and print its full record incl. events')
@@ -86,6 +87,8 @@ def main(argv):
             for r in pool.run_batch(prop, tasks, a.tier, workers=a.workers, wall=int(os.environ.get('DFSIM_RUN_WALL', 0)) or prop.TIERS[a.tier].get('run_wall', 60)):
                 print('DIGEST %d %s %s %s' % (r['i'], r.get('digest'), r['verdict'], r.get('n_events')))
             return 0
+        if a.no_shrink:
+            os.environ['DFSIM_NO_SHRINK'] = '1'
         return engine.run_check(prop, a.tier, seed, workers=a.workers, runs=a.runs, write_evidence=not a.no_evidence)
     finally:
         pool.cleanup_scratch()
